@@ -538,7 +538,9 @@ func c06ParameterGrid(run *mon.Run) {
 						if meOK {
 							pksMe[me] = pool[0] // the participant's own public key share must match its private key
 						}
-						if run.Guard("NewBLSThresholdSignatureParticipant", rep, func() { _, e = crypto.NewBLSThresholdSignatureParticipant(pool[0], pksMe, t, me, sk, []byte("m"), "grid") }) {
+						if run.Guard("NewBLSThresholdSignatureParticipant", rep, func() {
+							_, e = crypto.NewBLSThresholdSignatureParticipant(pool[0], pksMe, t, me, sk, []byte("m"), "grid")
+						}) {
 							continue
 						}
 						run.Eval(1)
